@@ -106,7 +106,7 @@ fn main() {
             };
             let cases = arg_val(&args, "--cases").and_then(|s| s.parse().ok()).unwrap_or(((default_cases as f64) * budget) as u64);
             let workers = std::thread::available_parallelism().map(|n| n.get()).unwrap_or(4).min(16);
-            let cap = if thorough { Duration::from_secs_f64(420.0 * budget) } else { Duration::from_secs(600) };
+            let cap = if thorough { Duration::from_secs_f64(300.0 * budget) } else { Duration::from_secs(600) };
             let mut timed_out = false;
             if failure.is_none() {
                 let res = driver::search(prop, &p, seed, cases, workers, Some(start + cap), &known);
